@@ -412,6 +412,57 @@ def logv_section(mods):
     return flags
 
 
+# ------------------------------------------------------------------------------------------------
+# lie_bracket: which of the caller's derivative options reach flow_derivatives for each of its two Jacobians
+# ------------------------------------------------------------------------------------------------
+def lie_opts_section(flow_mod):
+    opts = {"mode": "forward", "sigma": Fraction(7, 10), "spacing": Fraction(3, 2), "stride": 2}
+    names = ["mode", "sigma", "spacing", "stride"]
+    result = None
+    for D in (2, 3):
+        shape = (1, D) + (2,) * D
+        v = sym(shape, "v")
+        u = sym(shape, "u")
+        calls = []
+
+        def fd(flow, which=None, order=None, mode=None, sigma=None, spacing=None, stride=None):
+            who = [n for n, t in (("v", v), ("u", u)) if trlib.same_tensor(flow.a, t.a)]
+            if len(who) != 1:
+                raise TraceError("lie_bracket differentiates something that is not one of its arguments")
+            if order is not None:
+                raise TraceError("lie_bracket restricts the derivative order")
+            got = {"mode": mode, "sigma": sigma, "spacing": spacing, "stride": stride}
+            fw = []
+            for n in names:
+                if got[n] == opts[n]:
+                    fw.append(True)
+                elif got[n] is None:
+                    fw.append(False)
+                else:
+                    raise TraceError(f"lie_bracket passes {n}={got[n]!r} to flow_derivatives (caller gave {opts[n]!r})")
+            keys = list(which) if which is not None else [f"d{c}/d{l}" for c in "uvw"[:D] for l in "xyz"[:D]]
+            want = [f"d{c}/d{l}" for c in "uvw"[:D] for l in "xyz"[:D]]
+            if sorted(keys) != sorted(want):
+                raise TraceError(f"lie_bracket requests derivatives {keys}, expected the Jacobian entries")
+            calls.append((who[0], tuple(fw)))
+            return {k: sym(shape[:1] + (1,) + shape[2:], f"j{who[0]}{'uvw'.index(k[1])}{'xyz'.index(k.split('/d')[1])}_") for k in keys}
+        with patched(flow_mod, "flow_derivatives", fd):
+            flow_mod.lie_bracket(v, u, **opts)
+        if sorted(c[0] for c in calls) != ["u", "v"]:
+            raise TraceError(f"lie_bracket computes Jacobians of {[c[0] for c in calls]}, expected one of each argument")
+        table = dict(calls)
+        if result is not None and result != table:
+            raise TraceError("option forwarding of lie_bracket depends on the dimension")
+        result = table
+
+    def b(t):
+        return "(" + ", ".join("true" if x else "false" for x in t) + ")"
+    return ("(* lie_bracket(v, u, mode, sigma, spacing, stride): which of the caller's options (mode, sigma, spacing, stride) reach\n"
+            "   flow_derivatives for the Jacobian of the first argument v and of the second argument u *)\n"
+            f"Definition gen_lie_opts_first_arg : lopts := {b(result['v'])}.\n"
+            f"Definition gen_lie_opts_second_arg : lopts := {b(result['u'])}.\n")
+
+
 def generate(loader):
     flow_mod = loader.load("deepali.core.flow")
     img = loader.load("deepali.core.image")
